@@ -21,6 +21,10 @@ class QuiescentHang(Exception):
     """The loop has nothing left to do but the main coroutine is not done"""
 
 
+class _SkipCleanup(Exception):
+    pass
+
+
 class _VSelector:
     def __init__(self, inner, loop):
         self._inner = inner
@@ -174,6 +178,9 @@ def run(coro_fn, *, virtual=True, debug=False, watchdog=None):
         return main.result()
     finally:
         try:
+            import sys as _sys
+            if isinstance(_sys.exc_info()[1], KeyboardInterrupt):
+                raise _SkipCleanup()
             pending = [t for t in asyncio.all_tasks(loop) if not t.done()]
             for t in pending:
                 t.cancel()
